@@ -9,7 +9,12 @@ import EmsModel.Core.Proto
 `decode dims=<a,b> shape=<n>x<m> <payload> <start> primary=<dim>` → `<rows>` | `ERR:…`
 `topo A=<attrs> S=<sizes> V=<var> … N=<numbering> [Q=<c|t|ct>]` (Q: reproduce a recorded deviation)
                                                  → `fn=…|en=…|fe=…|ef=…|ff=…|hv=…|dims=…|poly=…|fc=…`
+`edgenode <same arguments as topo>`              → `fn=…|en=…|fe=…` only (datasets whose supplied tables do not describe the
+      mesh: what the derivations further down do with such a table is not all modelled)
 `propcheck w=<n> faces=<rows>`                   → `ok` | `FAIL:<conclusion>`
+`followcheck w=<n> faces=<rows> fe=<table> ef=<table>` (a face-edge and an edge-face table of the mesh in some
+      numbering of its edges)                    → `ok` | `FAIL:<conclusion>`: the conclusions of
+      `edge_node_follows_face_edge`, `edge_node_follows_edge_face`, `derived_numbering_consistent` on the model
 
 rows: `;` between rows, `,` between cells, `-` a masked / NaN cell, `e` an empty table,
 empty string between `;` an empty row.
@@ -191,7 +196,7 @@ def topoLine (ds : DS) (numbering : Option (List Pair)) (q : Quirks) : String :=
   let tabs := match ds.topoIn numbering q with
     | .error e => s!"fn={showErr e}|en={showErr e}|fe={showErr e}|ef={showErr e}|ff={showErr e}"
     | .ok t =>
-      s!"fn={showExcept showTable t.faceNode}|en={showExcept showTable t.edgeNodeArray}|fe={showExcept showTable t.faceEdgeArray}|ef={showExcept showTable t.edgeFaceArray}|ff={showExcept showTable t.faceFaceArray}"
+      s!"fn={showExcept showTable t.faceNode}|en={showExcept showTable t.edgeNodeArrayN}|fe={showExcept showTable t.faceEdgeArrayN}|ef={showExcept showTable t.edgeFaceArrayN}|ff={showExcept showTable t.faceFaceArrayN}"
   let hv := String.join ((ds.hasValid numbering q).map fun
     | .ok true => "1"
     | .ok false => "0"
@@ -246,6 +251,46 @@ def propcheck (w : Nat) (facesN : List (List Nat)) : String :=
             fg == gf && fg == shared
         if ffOk then "ok" else "FAIL:face_face_spec"
 
+/-- the conclusions of the theorems about a derived edge table that follows a supplied one -/
+def followcheck (w : Nat) (facesN : List (List Nat)) (fe ef : Table) : String :=
+  let faces : List (List Int) := facesN.map (·.map Int.ofNat)
+  let own := makeEdgeNode faces
+  let sidesOk (en : List Pair) : Bool := (faces.zipIdx).all fun (f, i) =>
+    ((facePairs f).zipIdx).all fun (p, c) =>
+      match cellOf fe i c with
+      | some (some k) => decide (0 ≤ k) && (en[k.toNat]? == some (normPair p))
+      | _ => false
+  -- edge_node_follows_face_edge
+  if !faceEdgeDescribes faces fe then "FAIL:face_edge-does-not-describe-the-faces" else
+  match makeEdgeNodeFollowingFaceEdge faces fe with
+  | .error e => s!"FAIL:follow_face_edge:{showErr e}"
+  | .ok tab =>
+    match pairsOfTable tab with
+    | none => "FAIL:follow_face_edge:masked-row"
+    | some en =>
+      if !isRenumbering en own then "FAIL:follow_face_edge:not-a-renumbering" else
+      if !sidesOk en then "FAIL:follow_face_edge:row-is-not-the-side" else
+      -- derived_numbering_consistent: the supplied table is the one derived from the derived edges
+      if faceEdgeShaped w faces fe && !(makeFaceEdge w en faces == Except.ok fe) then "FAIL:numbering_consistent:face_edge" else
+      -- edge_node_follows_edge_face
+      if !edgeFaceDescribes faces ef then "FAIL:edge_face-does-not-describe-the-sides" else
+      match makeEdgeNodeFollowingEdgeFace faces ef with
+      | none => "FAIL:follow_edge_face:fell-back"
+      | some tab2 =>
+        match pairsOfTable tab2 with
+        | none => "FAIL:follow_edge_face:masked-row"
+        | some en2 =>
+          if !isRenumbering en2 own then "FAIL:follow_edge_face:not-a-renumbering" else
+          let rowsOk := (List.range en2.length).all fun k =>
+            (List.range faces.length).all fun i =>
+              let listed := (rowOf ef k).contains (i : Int)
+              let has := (facePairs ((faces[i]?).getD [])).any fun p => some (normPair p) == en2[k]?.map normPair
+              listed == has
+          if !rowsOk then "FAIL:follow_edge_face:row-is-not-the-faces-of-the-edge" else
+          -- the two supplied tables describe one numbering up to interchangeable sides: same face sets per row
+          if (List.range en.length).all (fun k => sameFaces (sideFaces faces (en[k]?.getD (0, 0))) (sideFaces faces (en2[k]?.getD (0, 0))))
+          then "ok" else "FAIL:follow:the-two-numberings-differ-beyond-interchangeable-sides"
+
 def step (line : String) : String :=
   match words line with
   | ["startindex", a] =>
@@ -275,6 +320,19 @@ def step (line : String) : String :=
     match parseDS? rest with
     | none => "BAD"
     | some (ds, numbering, q) => topoLine ds numbering q
+  | "followcheck" :: rest =>
+    let args := kv rest
+    match (args.lookup "w").bind parseNat?, (args.lookup "faces").bind parseNatRows?,
+          (args.lookup "fe").bind parseTable?, (args.lookup "ef").bind parseTable? with
+    | some w, some faces, some fe, some ef => followcheck w faces fe ef
+    | _, _, _, _ => "BAD"
+  | "edgenode" :: rest =>
+    match parseDS? rest with
+    | none => "BAD"
+    | some (ds, numbering, q) =>
+      match ds.topoIn numbering q with
+      | .error e => s!"fn={showErr e}|en={showErr e}|fe={showErr e}"
+      | .ok t => s!"fn={showExcept showTable t.faceNode}|en={showExcept showTable t.edgeNodeArrayN}|fe={showExcept showTable t.faceEdgeArrayN}"
   | "propcheck" :: rest =>
     let args := kv rest
     match (args.lookup "w").bind parseNat?, (args.lookup "faces").bind parseNatRows? with
